@@ -106,18 +106,28 @@ def one_history(seed):
     if target == "parser":
         obj = Parser()
         fresh = lambda: Parser()
-        call = lambda o, t: str(o.parse(t))
+        call = lambda o, t, a=(): str(o.parse(t, *a))
     elif target in ("py", "py-method"):
         obj = st["py"]()
         fresh = lambda: st["py"]()
-        call = lambda o, t: tokharness.canon(o.tokenize(t))
+        call = lambda o, t, a=(): tokharness.canon(o.tokenize(t, *a))
     else:
         if st["c"] is None:
             return target, texts, None, False
         obj = st["c"]()
         fresh = lambda: st["c"]()
-        call = lambda o, t: tokharness.canon(o.tokenize(t))
+        call = lambda o, t, a=(): tokharness.canon(o.tokenize(t, *a))
     aborted = 0
+
+    def some_args():
+        # options are per-call arguments too: given, defaulted, given again (a default must not remember the last call)
+        r = rng.random()
+        if r < 0.45:
+            return ()
+        ctx = st["uri"] if rng.random() < 0.2 else 0
+        if r < 0.6:
+            return (ctx,)
+        return (ctx, rng.random() < 0.6)
     for i, t in enumerate(texts):
         if rng.random() < 0.6:
             k = rng.randint(1, 10) if not deep else rng.randint(1, 120)
@@ -131,7 +141,7 @@ def one_history(seed):
             _arm(site, k)
             try:
                 try:
-                    call(obj, t)
+                    call(obj, t, some_args())
                     outcome = "completed"
                 except Boom:
                     outcome = "aborted"
@@ -149,16 +159,17 @@ def one_history(seed):
             if outcome != "completed":
                 aborted += 1
         # after whatever happened: the object must behave like a fresh one on every later call
-        for t2 in (texts[(i + 1) % len(texts)], "x", t):
+        for t2 in (texts[(i + 1) % len(texts)], "x ''y'' z", t):
+            args = some_args()
             try:
-                a = call(obj, t2)
+                a = call(obj, t2, args)
             except Exception as e:  # noqa: BLE001
                 import traceback
                 return target, texts, "after %d aborted call(s) the reused object raises %r on %r [%s]" % (
                     aborted, e, t2, " <- ".join("%s:%d" % (f.name, f.lineno) for f in traceback.extract_tb(e.__traceback__)[-4:])), aborted > 0
-            b = call(fresh(), t2)
+            b = call(fresh(), t2, args)
             if a != b:
-                return target, texts, "after %d aborted call(s) the reused object gives a different result on %r" % (aborted, t2), aborted > 0
+                return target, texts, "after %d aborted call(s) the reused object gives a different result on %r with the arguments %r" % (aborted, t2, args), aborted > 0
             if target == "parser":
                 r = _residue(obj._tokenizer) + _residue(obj._builder)
             else:
